@@ -15,7 +15,8 @@ RULE = ("Parameter.parse on a packet whose cursor is preset. Exhaustive parts: e
         "classes (+-0, min/max subnormal, min/max normal, +-inf, quiet/signalling NaN with payloads, mantissa -2^23 and "
         "2^23-1, exponent -128 and 127) and random patterns, offsets 0..7 plus large offsets, both byte orders (little-"
         "endian only for whole-byte widths); a quarter of the generated fields are obtained through from_xml of an own "
-        "rendering (defaults written or omitted, optional `signed` attribute on the parameter type). Oracle: bit-string/Fraction reference (vf/refbits.py): value equal (floats "
+        "rendering (defaults written or omitted, optional `signed` attribute on the parameter type), and some integer "
+        "fields carry a context calibrator whose criterion does not hold (the value must stay an integer). Oracle: bit-string/Fraction reference (vf/refbits.py): value equal (floats "
         "bit-for-bit incl. sign of zero, NaN==NaN), int-based value for integer encodings and float-based for float "
         "encodings, raw_value == value, cursor advanced by the width. Non-trivial: offset != 0, or little-endian, or "
         "signed with sign bit set, or a float from a boundary class; distinct by (encoding, width, order, offset, pattern).")
@@ -56,9 +57,22 @@ def _param_xml(enc):
     return parameters.Parameter("P", cls.from_xml(t))
 
 
+def _param_never(enc):
+    """integer encoding carrying a context calibrator whose criterion does NOT hold for this field (it compares the
+    field's own raw value with a different number): the value stays uncalibrated, i.e. an integer"""
+    from space_packet_parser.xtce import calibrators, comparisons, encodings, parameter_types, parameters
+    cc = calibrators.ContextCalibrator(
+        [comparisons.Comparison(str(enc["never"]), "P", "==", use_calibrated_value=False)],
+        calibrators.PolynomialCalibrator([calibrators.PolynomialCoefficient(2.0, 1)]))
+    e = encodings.IntegerDataEncoding(enc["bits"], enc["sign"], byte_order=enc["order"], context_calibrators=[cc])
+    return parameters.Parameter("P", parameter_types.IntegerParameterType("T", e))
+
+
 def _param(enc):
     if enc.get("xml"):
         return _param_xml(enc)
+    if enc.get("never") is not None:
+        return _param_never(enc)
     key = (enc["k"], enc["bits"], enc.get("sign"), enc.get("fmt"), enc["order"])
     p = _cache.get(key)
     if p is None:
@@ -252,6 +266,9 @@ def gen_case(draw):
             pat = int(refbits.reverse_bytes(format(pat, f"0{w}b")), 2)
     if draw(st.integers(0, 3)) == 0:
         enc["xml"] = {"omit": draw(st.booleans()), "signed": draw(st.sampled_from([None, "true", "false"]))}
+    elif kind == "int" and draw(st.integers(0, 5)) == 0:
+        # a context calibrator that does not apply: compare the own raw value with a number it does not have
+        enc["never"] = refbits.ref_int(format(pat, f"0{w}b"), enc["sign"], enc["order"]) + draw(st.sampled_from([1, -1, 7]))
     offset = draw(st.one_of(st.integers(0, 7), st.integers(0, 7), st.integers(8, 4000)))
     fbits = format(pat, f"0{w}b")
     pre = draw(st.integers(0, 2 ** min(offset, 16) - 1)) if offset else 0
